@@ -30,7 +30,7 @@ def gen_hook(sc, cfg):
         r = sc.rng.random()
         if r < 0.7:
             return {'op': 'frame', 't': t, 'text': sc.rng.choice(HOSTILE) or '2', '_hostile': True}
-        return {'op': 'frameval', 't': t, 'v': sc.rng.choice([b'', b'\x00\x01', 1, True, 5, 0, None])}
+        return {'op': 'frameval', 't': t, 'v': sc.rng.choice([b'', b'\x00\x01', b'1', b'0', b'5', 1, True, 5, 0, None])}
     sc.g_hostile = g_hostile
 
 
